@@ -1,5 +1,6 @@
 import TexcraftModel.Util.Proto
 import TexcraftModel.Model.C14
+import TexcraftModel.Model.C13
 
 /-! Driver for C14 (hyphenation pass over a horizontal list). Requests (all integers):
 
@@ -7,6 +8,11 @@ import TexcraftModel.Model.C14
 * `chk <lhm> <rhm> <inp list> <out list> <n> {<k> raw…}` — `inp` = list before, `out` = the
   REAL list after `Hyphenator::hyphenate`, then for each word of `fw` (same order) the raw
   Liang positions the real `hyphenate` crate returned for its letters. Reply: see `handle`.
+
+* `li <patterns> <exceptions> <word>` (comma lists of plain ASCII items, `_` = none) → the Liang
+  positions of the word by C13's specification `C13.specIndices` (dot separated, `_` = none,
+  `N` = the word has a non-letter). Used to tie the raw positions to property C13 when the
+  pattern set is small enough to be given to the driver.
 
 List encoding: `<n> item…`; item = `0 c font` | `1 c font lb rb <k> orig…` | `2 kind w` |
 `3 kind <k> payload…` | `4 rc <npre> delem… <npost> delem…`; delem = `0 c font` |
@@ -146,6 +152,11 @@ def handle (line : String) : String :=
       let fw := findWords l
       showInts ((fw.length : Int) :: (fw.map encWord).flatten)
     | _ => "bad-request"
+  | ["li", pats, excs, w] =>
+    let items := fun (x : String) => if x = "_" then [] else (x.splitOn ",").map String.toList
+    match C13.lowerWord C13.asciiLc w.toList with
+    | none => "N"
+    | some lw => dots (C13.specIndices (items pats) (items excs) lw)
   | "chk" :: ws =>
     match ints? ws with
     | some (lhm :: rhm :: rest) =>
